@@ -376,6 +376,87 @@ def deepcopies(chk, rng):
     return cases
 
 
+def orphans(chk, rng):
+    """objects whose owner is gone (a unit taken out of a sequence that was then dropped, the roll of a dropped pass, a profile returned by a dropped unit):
+    a deep copy is made like any other, and its back-reference names nothing, like the original's"""
+    import gc
+    from pyroll.core import RollPass
+    hf = RollPass.Profile.flow_stress(flow_stress)
+    try:
+        for name, make in layouts(rng):
+            seq = make()
+            try:
+                out = seq.solve(incoming())
+            except Exception:      # noqa
+                out = None
+            units = list(walk_units(seq))[1:]
+            rolls = [u.roll for u in units if isinstance(u, RollPass)]
+            profs = [p for _, p in profiles_of(seq)][:3] + ([out] if out is not None else [])
+            tops = list(seq.units)
+            del seq, units
+            gc.collect()
+            for what, objs, attr in (('unit whose sequence was dropped', 'tops', 'parent'), ('roll whose pass was dropped', 'rolls', 'roll_pass'),
+                                     ('profile whose unit was dropped', 'profs', 'unit')):
+                if objs == 'tops':
+                    objs = tops
+                else:
+                    tops = None
+                    gc.collect()
+                    objs = rolls if objs == 'rolls' else profs
+                for o in objs:
+                    chk.cov['evaluations'] += 1
+                    data = {'layout': name, 'kind': 'orphan', 'object': f"{type(o).__name__} {getattr(o, 'label', '')!r}"}
+                    try:
+                        gone = getattr(o, attr, None) is None
+                    except Exception:      # noqa
+                        gone = True
+                    try:
+                        c = copy.deepcopy(o)
+                    except Exception as e:      # noqa
+                        return chk.fail('copy-of-orphan', f"[{name}] deep copy of a {what} ({data['object']}; its {attr} reads {'None' if gone else 'an object'}) raises "
+                                        f"{type(e).__name__}: {e}", data)
+                    try:
+                        cgone = getattr(c, attr, None) is None
+                    except Exception:      # noqa
+                        cgone = True
+                    if gone and not cgone:
+                        return chk.fail('copy-of-orphan', f"[{name}] deep copy of a {what} ({data['object']}): the original's {attr} is None, the copy's is not", data)
+            del rolls, profs
+    finally:
+        hf.hook.remove_function(hf)
+
+
+def own_profile_again(chk):
+    """`unit.solve(unit.in_profile)` after an edit (solving one unit of a line again): the profile handed in is an input like any other - it is an already
+    produced profile, too - and is not written to; nor are the profiles the earlier run returned"""
+    from pyroll.core import RollPass, Roll, CircularOvalGroove, Transport
+    hf = RollPass.Profile.flow_stress(flow_stress)
+    try:
+        for kind in ('pass', 'transport'):
+            u = (RollPass(label="p", roll=Roll(groove=CircularOvalGroove(depth=8e-3, r1=6e-3, r2=40e-3), nominal_radius=160e-3, rotational_frequency=1), gap=2e-3, rotation=0)
+                 if kind == 'pass' else Transport(label="t", duration=1))
+            first = u.solve(incoming())
+            given = u.in_profile
+            w = Watch()
+            w.add("the profile handed to solve (the unit's own in profile of the run before)", given)
+            w.add("the profile returned by the run before", first)
+            if kind == 'pass':
+                u.gap = 3e-3
+                u.roll.rotational_frequency = 2
+            else:
+                u.duration = 5
+            chk.cov['evaluations'] += 1
+            try:
+                u.solve(given)
+            except Exception as e:      # noqa
+                chk.notes.append(f"own_profile_again {kind}: {type(e).__name__}: {e}") if hasattr(chk, 'notes') else None
+                continue
+            if not w.check(chk, f"a {type(u).__name__} solved, edited, and solved again with its own in profile", {'case': 'own profile again', 'unit': kind}):
+                return
+    finally:
+        hf.hook.remove_function(hf)
+
+
 def run(chk):
     try:
         txt, info = mutations_ts.generate()
@@ -409,6 +490,10 @@ def run(chk):
     for _ in range(1 if not chk.thorough else 6):
         if not chk.failures:
             histories(chk, rng)
+    if not chk.failures:
+        orphans(chk, rng)
+    if not chk.failures:
+        own_profile_again(chk)
     chk.cov['distinct_nontrivial'] += len(cases)
     chk.sample({'layout': 'explicit rotators 45 then 90', 'operations': ['solve', 'stage']})
     chk.cov['rule'] = ("six layouts (flat, disk elements, nested sequences, rotators 45/90/180 in a row, cooling pipe), each with a random order of: solve, "
